@@ -24,14 +24,17 @@ pub assume_specification[i64::abs](x: i64) -> (r: i64)
     ensures x > i64::MIN ==> r == if x < 0 { -x } else { x as int };
 
 // =====================================================================================================
-// the two interfaces of src/geometry/traits.rs, with SHAPE contracts only ("no shape makes these routines panic")
+// the two interfaces of src/geometry/traits.rs.  Beyond the SHAPE contracts ("no shape makes these routines panic") they now carry
+// the ZERO STRUCTURE of the elimination: `at` is the abstract entry, `zr` says "this entry is zero"; what a pivot search must return
+// and what clearing a column must leave behind are the trait-level contracts every `Entry` implementation is checked against.
 // =====================================================================================================
 pub trait Array2d<T>:
-    Index<(usize, usize), Output=T>
+    Sized + Index<(usize, usize), Output=T> + IndexMut<(usize, usize), Output=T>
 {
     spec fn wf(&self) -> bool;
     spec fn srows(&self) -> int;
     spec fn scols(&self) -> int;
+    spec fn at(&self, i: int, j: int) -> T;
     fn nr_rows(&self) -> (r: usize) requires self.wf() ensures r == self.srows();
     fn nr_columns(&self) -> (r: usize) requires self.wf() ensures r == self.scols();
     // law tying the index precondition (the assert!s of the Index impl) to the shape; every implementation proves it
@@ -39,37 +42,80 @@ pub trait Array2d<T>:
         requires self.wf()
         ensures IndexSpec::index_req(self, &(i, j)) <==> (i < self.srows() && j < self.scols()),
             0 <= self.srows() <= usize::MAX, 0 <= self.scols() <= usize::MAX;
+    // law: whatever `a[(i, j)]` returns (the postcondition of the implementation's `index`) is the abstract entry
+    proof fn read_law(&self)
+        requires self.wf()
+        ensures forall|i: usize, j: usize, r: &T|
+            #[trigger] call_ensures(<Self as Index<(usize, usize)>>::index, (self, (i, j)), r) && i < self.srows() && j < self.scols()
+                ==> *r == self.at(i as int, j as int);
+    // law: `a[(i, j)] = v` (the postcondition of the implementation's `index_mut`) writes exactly that entry
+    proof fn write_law()
+        ensures forall|m: &mut Self, i: usize, j: usize, r: &mut T|
+            #[trigger] call_ensures(<Self as IndexMut<(usize, usize)>>::index_mut, (m, (i, j)), r) && (*m).wf() && i < (*m).srows() && j < (*m).scols()
+                ==> mut_ref_future(m).wf() && mut_ref_future(m).srows() == (*m).srows() && mut_ref_future(m).scols() == (*m).scols()
+                    && mut_ref_future(m).at(i as int, j as int) == mut_ref_future(r)
+                    && forall|k: int, l: int| 0 <= k < (*m).srows() && 0 <= l < (*m).scols() && !(k == i && l == j)
+                        ==> #[trigger] mut_ref_future(m).at(k, l) == (*m).at(k, l);
+}
+
+pub open spec fn same_shape<T, A: Array2d<T>>(a0: A, a1: A) -> bool {
+    a1.wf() && a1.srows() == a0.srows() && a1.scols() == a0.scols()
+}
+
+// a1 is a0 with entry (i, j) replaced by v
+pub open spec fn written<T, A: Array2d<T>>(a0: A, a1: A, i: int, j: int, v: T) -> bool {
+    same_shape(a0, a1) && a1.at(i, j) == v
+    && forall|k: int, l: int| 0 <= k < a0.srows() && 0 <= l < a0.scols() && !(k == i && l == j) ==> #[trigger] a1.at(k, l) == a0.at(k, l)
+}
+
+// what `clear_col(col, row1, row2, a, _)` leaves behind: entry (row1, col) is zero, the pivot (row2, col) is still non-zero,
+// and nothing changes to the left of `col` or outside the two rows
+pub open spec fn cleared<T: Entry, A: Array2d<T>>(a0: A, a1: A, col: int, row1: int, row2: int) -> bool {
+    same_shape(a0, a1) && a1.at(row1, col).zr() && !a1.at(row2, col).zr()
+    && forall|k: int, l: int| 0 <= k < a0.srows() && 0 <= l < a0.scols() && (l < col || (k != row1 && k != row2)) ==> #[trigger] a1.at(k, l) == a0.at(k, l)
 }
 
 pub trait Entry: Sized {
-    // contract every implementation has to meet (proved below for i64): the pivot is a row index at or below row0
+    spec fn zr(&self) -> bool;      // "is zero"
+
+    // contract every implementation has to meet (proved below for i64, in unit prime_residue for PrimeResidueClass):
+    // Some(p): p is a row at or below row0 whose entry in `col` is NOT zero;  None: the whole rest of the column is zero
     fn pivot_row<M: Array2d<Self>>(col: usize, row0: usize, a: &M) -> (r: Option<usize>)
         requires a.wf(), row0 < a.srows(), col < a.scols()
-        ensures r.is_some() ==> row0 <= r.unwrap() < a.srows();
-    // shape preservation; the arithmetic (gcdx, BigRational, f64) is outside the verifier: assumed
+        ensures r.is_some() ==> row0 <= r.unwrap() < a.srows() && !a.at(r.unwrap() as int, col as int).zr(),
+            r.is_none() ==> forall|k: int| row0 <= k < a.srows() ==> (#[trigger] a.at(k, col as int)).zr();
+    // shape preservation and zero structure; the arithmetic itself (gcdx on machine integers, BigRational, f64) is outside the verifier
     fn clear_col<A: Array2d<Self>, B: Array2d<Self>>(
         col: usize, row1: usize, row2: usize, a: &mut A, x: Option<&mut B>
     )
         requires old(a).wf(), row1 < old(a).srows(), row2 < old(a).srows(), col < old(a).scols(),
+            row1 != row2, !old(a).at(row2 as int, col as int).zr(),      // the body divides by the pivot entry
             x.is_some() ==> old(x.unwrap()).wf() && row1 < old(x.unwrap()).srows() && row2 < old(x.unwrap()).srows(),
-        ensures final(a).wf(), final(a).srows() == old(a).srows(), final(a).scols() == old(a).scols(),
-            x.is_some() ==> final(x.unwrap()).wf() && final(x.unwrap()).srows() == old(x.unwrap()).srows()
-                && final(x.unwrap()).scols() == old(x.unwrap()).scols();
+        // (= `cleared(*old(a), *final(a), col, row1, row2)` below, spelled out: a trait may not mention a predicate generic over itself)
+        ensures same_shape(*old(a), *final(a)),
+            final(a).at(row1 as int, col as int).zr(), !final(a).at(row2 as int, col as int).zr(),
+            forall|k: int, l: int| 0 <= k < old(a).srows() && 0 <= l < old(a).scols() && (l < col || (k != row1 && k != row2))
+                ==> #[trigger] final(a).at(k, l) == old(a).at(k, l),
+            x.is_some() ==> same_shape(*old(x.unwrap()), *final(x.unwrap()));
 }
 
 impl Entry for i64 {
+    open spec fn zr(&self) -> bool { *self == 0 }
+
     //@ begin src/geometry/traits.rs :: impl Entry for i64 :: fn pivot_row
     //@ rw R16 /-> Option<usize>/-> (r: Option<usize>)/
     fn pivot_row<M: Array2d<Self>>(col: usize, row0: usize, a: &M)
         -> (r: Option<usize>)
     {
-        proof { a.index_law(row0, col); }
+        proof { a.index_law(row0, col); a.read_law(); }
         let mut best_row = row0;
 
         for row in (row0 + 1)..a.nr_rows()
             invariant a.wf(), row0 <= best_row < a.srows(), col < a.scols(), row0 < a.srows(),
+                // the candidate is non-zero as soon as any entry seen so far is
+                a.at(best_row as int, col as int) == 0 ==> forall|k: int| row0 <= k < row ==> #[trigger] a.at(k, col as int) == 0,
         {
-            proof { a.index_law(row, col); a.index_law(best_row, col); }
+            proof { a.index_law(row, col); a.index_law(best_row, col); a.read_law(); }
             let x = a[(row, col)];
             let y = a[(best_row, col)];
             if x != 0 && (y == 0 || x.abs() < y.abs()) {
@@ -77,11 +123,13 @@ impl Entry for i64 {
             }
         }
 
-        proof { a.index_law(best_row, col); }
+        proof { a.index_law(best_row, col); a.read_law(); }
         if a[(best_row, col)] != 0 { Some(best_row) } else { None }
     }
     //@ end
 
+    // ASSUMED (trait contract above): the body is fraction-free elimination through `gcdx` on machine integers, whose products
+    // overflow for large entries -- Verus would (rightly) reject every `*`; see DESIGN.md, C18
     #[verifier::external_body]
     fn clear_col<A: Array2d<Self>, B: Array2d<Self>>(
         col: usize, row1: usize, row2: usize, a: &mut A, x: Option<&mut B>
@@ -101,12 +149,39 @@ pub struct VecMatrix<T> {
 }
 //@ end
 
+// entry (i, j) of the row-major storage; opaque: the nonlinear index stays out of the quantified invariants
+#[verifier::opaque]
+pub open spec fn vm_at<T>(m: VecMatrix<T>, i: int, j: int) -> T { m.data@[i * m.nr_cols + j] }
+
+// position arithmetic of the row-major layout: (i, j) <-> i * nc + j is a bijection onto 0..nr*nc
+proof fn lemma_pos(nr: int, nc: int, i: int, j: int)
+    requires 0 <= i < nr, 0 <= j < nc
+    ensures 0 <= i * nc + j < nr * nc, i * nc >= 0, i * nc + nc <= nr * nc
+{
+    assert(0 <= i * nc + j < nr * nc && i * nc >= 0 && i * nc + nc <= nr * nc) by(nonlinear_arith) requires 0 <= i < nr, 0 <= j < nc;
+}
+proof fn lemma_pos_inj(nc: int, i: int, j: int, k: int, l: int)
+    requires 0 <= j < nc, 0 <= l < nc, 0 <= i, 0 <= k, i * nc + j == k * nc + l
+    ensures i == k, j == l
+{
+    assert(i == k) by(nonlinear_arith) requires 0 <= j < nc, 0 <= l < nc, 0 <= i, 0 <= k, i * nc + j == k * nc + l;
+}
+// a position outside row i
+proof fn lemma_pos_other_row(nc: int, i: int, k: int, l: int)
+    requires 0 <= l < nc, 0 <= i, 0 <= k, k != i
+    ensures !(i * nc <= k * nc + l < i * nc + nc)
+{
+    assert(!(i * nc <= k * nc + l < i * nc + nc)) by(nonlinear_arith) requires 0 <= l < nc, 0 <= i, 0 <= k, k != i;
+}
+
 impl<T> VecMatrix<T> {
     pub open spec fn inv(&self) -> bool { self.data@.len() == self.nr_rows * self.nr_cols && self.data@.len() <= usize::MAX }
 
-    // assumed SHAPE contracts of three methods whose bodies need `T: Scalar + Clone` (num_traits Zero/One, HRTB bounds)
+    // assumed contracts of two methods whose bodies need `T: Scalar + Clone` (num_traits Zero/One, HRTB bounds): `clone` is the derived
+    // one (same entries), `identity` is used for its shape only
     #[verifier::external_body]
-    pub fn clone(&self) -> (r: Self) requires self.inv() ensures r.inv(), r.nr_rows == self.nr_rows, r.nr_cols == self.nr_cols { unimplemented!() }
+    pub fn clone(&self) -> (r: Self) requires self.inv() ensures r.inv(), r.nr_rows == self.nr_rows, r.nr_cols == self.nr_cols,
+        forall|i: int, j: int| 0 <= i < self.nr_rows && 0 <= j < self.nr_cols ==> #[trigger] r.at(i, j) == self.at(i, j) { unimplemented!() }
     #[verifier::external_body]
     pub fn identity(dim: usize) -> (r: Self) ensures r.inv(), r.nr_rows == dim, r.nr_cols == dim { unimplemented!() }
 }
@@ -137,10 +212,34 @@ impl<T> Index<(usize, usize)> for VecMatrix<T>
     //@ end
 }
 
+impl<T> IndexMut<(usize, usize)> for VecMatrix<T>
+{
+    //@ begin src/geometry/vec_matrix.rs :: impl<T> IndexMut<(usize, usize)> for VecMatrix<T> :: fn index_mut
+    //@ rw R16 /-> &mut T$/-> (r: &mut T)/
+    fn index_mut(&mut self, index: (usize, usize)) -> (r: &mut T)
+        // the returned reference IS the slot of entry (i, j): whatever is stored through it lands there and nowhere else
+        ensures *r == old(self).data@[index.0 * old(self).nr_cols + index.1],
+            final(self).nr_rows == old(self).nr_rows, final(self).nr_cols == old(self).nr_cols,
+            final(self).data@ == old(self).data@.update(index.0 * old(self).nr_cols + index.1, *final(r)),
+    {
+        let (i, j) = index;
+        assert!(i < self.nr_rows);
+        assert!(j < self.nr_cols);
+
+        proof {
+            assert(i * self.nr_cols + j < self.nr_rows * self.nr_cols && i * self.nr_cols + j >= 0 && i * self.nr_cols >= 0) by(nonlinear_arith)
+                requires i < self.nr_rows, j < self.nr_cols;
+        }
+        &mut self.data[i * self.nr_cols + j]
+    }
+    //@ end
+}
+
 impl<T> Array2d<T> for VecMatrix<T> {
     open spec fn wf(&self) -> bool { self.inv() }
     open spec fn srows(&self) -> int { self.nr_rows as int }
     open spec fn scols(&self) -> int { self.nr_cols as int }
+    open spec fn at(&self, i: int, j: int) -> T { vm_at(*self, i, j) }
 
     //@ begin src/geometry/vec_matrix.rs :: impl<T> Array2d<T> for VecMatrix<T> :: fn nr_rows
     fn nr_rows(&self) -> usize
@@ -157,13 +256,41 @@ impl<T> Array2d<T> for VecMatrix<T> {
     //@ end
 
     proof fn index_law(&self, i: usize, j: usize) {}
+
+    proof fn read_law(&self)
+    {
+        reveal(vm_at);
+    }
+
+    proof fn write_law()
+    {
+        assert forall|m: &mut Self, i: usize, j: usize, r: &mut T|
+            #[trigger] call_ensures(<Self as IndexMut<(usize, usize)>>::index_mut, (m, (i, j)), r) && (*m).wf() && i < (*m).srows() && j < (*m).scols()
+            implies mut_ref_future(m).wf() && mut_ref_future(m).srows() == (*m).srows() && mut_ref_future(m).scols() == (*m).scols()
+                    && mut_ref_future(m).at(i as int, j as int) == mut_ref_future(r)
+                    && forall|k: int, l: int| 0 <= k < (*m).srows() && 0 <= l < (*m).scols() && !(k == i && l == j)
+                        ==> #[trigger] mut_ref_future(m).at(k, l) == (*m).at(k, l)
+        by {
+            let a0 = *m; let a1 = mut_ref_future(m); let v = mut_ref_future(r);
+            let nc = a0.nr_cols as int;
+            reveal(vm_at);
+            lemma_pos(a0.nr_rows as int, nc, i as int, j as int);
+            assert forall|k: int, l: int| 0 <= k < a0.srows() && 0 <= l < a0.scols() && !(k == i && l == j) implies #[trigger] a1.at(k, l) == a0.at(k, l) by {
+                lemma_pos(a0.nr_rows as int, nc, k, l);
+                if k * nc + l == i * nc + j { lemma_pos_inj(nc, i as int, j as int, k, l); }
+            }
+        }
+    }
 }
 
 impl<T> VecMatrix<T> {
     //@ begin src/geometry/vec_matrix.rs :: impl<T: Scalar + Clone> VecMatrix<T> :: fn swap_rows
     pub fn swap_rows(&mut self, i: usize, j: usize)
         requires old(self).inv(), i < old(self).nr_rows, j < old(self).nr_rows, i != j     // the three assertions of the body
-        ensures final(self).inv(), final(self).nr_rows == old(self).nr_rows, final(self).nr_cols == old(self).nr_cols
+        ensures final(self).inv(), final(self).nr_rows == old(self).nr_rows, final(self).nr_cols == old(self).nr_cols,
+            // rows i and j change places, every other row stays
+            forall|k: int, l: int| 0 <= k < old(self).nr_rows && 0 <= l < old(self).nr_cols ==>
+                #[trigger] final(self).at(k, l) == old(self).at(if k == i { j as int } else if k == j { i as int } else { k }, l),
     {
         assert!(i < self.nr_rows);
         assert!(j < self.nr_rows);
@@ -176,12 +303,31 @@ impl<T> VecMatrix<T> {
         }
         let ri = i * self.nr_cols;
         let rj = j * self.nr_cols;
+        let ghost d0 = self.data@;
+        let ghost nc = self.nr_cols as int;
+        proof {
+            // the two rows occupy disjoint stretches of the storage
+            assert(ri + nc <= rj || rj + nc <= ri) by(nonlinear_arith) requires ri == i * nc, rj == j * nc, i != j, nc >= 0;
+        }
 
         for k in 0..self.nr_cols
             invariant self.inv(), self.nr_rows == old(self).nr_rows, self.nr_cols == old(self).nr_cols,
                 ri + self.nr_cols <= self.data@.len(), rj + self.nr_cols <= self.data@.len(),
+                nc == self.nr_cols, d0 == old(self).data@, d0.len() == self.data@.len(),
+                ri + nc <= rj || rj + nc <= ri,
+                forall|p: int| 0 <= p < d0.len() ==> #[trigger] self.data@[p] ==
+                    if ri <= p < ri + k { d0[p - ri + rj] } else if rj <= p < rj + k { d0[p - rj + ri] } else { d0[p] },
         {
             self.data.swap(ri + k, rj + k);
+        }
+        proof {
+            reveal(vm_at);
+            assert forall|k: int, l: int| 0 <= k < old(self).nr_rows && 0 <= l < old(self).nr_cols implies
+                #[trigger] self.at(k, l) == old(self).at(if k == i { j as int } else if k == j { i as int } else { k }, l) by {
+                lemma_pos(self.nr_rows as int, nc, k, l);
+                if k != i { lemma_pos_other_row(nc, i as int, k, l); }
+                if k != j { lemma_pos_other_row(nc, j as int, k, l); }
+            }
         }
     }
     //@ end
@@ -202,14 +348,118 @@ pub open spec fn pivots_increasing(cols: Seq<usize>, rank: int) -> bool {
     forall|a: int, b: int| 0 <= a < b < rank ==> cols[a] < cols[b]
 }
 
+// ---------------------------------------------------------------------------------------------------------------------------
+// ROW ECHELON FORM (C18: rank / determinant / null space / solve all read it off `result`, `columns`, `rank`)
+// `elim_state(u, cols, row, col)`: the first `row` rows carry pivots (non-zero, nothing but zeros to their left) in the listed columns,
+// and the remaining rows are zero in every column below `col`.  With col = number of columns this is the row echelon form.
+// ---------------------------------------------------------------------------------------------------------------------------
+pub open spec fn pivot_ok<T: Entry, A: Array2d<T>>(u: A, k: int, c: int) -> bool {
+    !u.at(k, c).zr() && forall|l: int| 0 <= l < c ==> (#[trigger] u.at(k, l)).zr()
+}
+pub open spec fn rest_zero<T: Entry, A: Array2d<T>>(u: A, row: int, col: int) -> bool {
+    forall|k: int, l: int| row <= k < u.srows() && 0 <= l < col ==> (#[trigger] u.at(k, l)).zr()
+}
+pub open spec fn elim_state<T: Entry, A: Array2d<T>>(u: A, cols: Seq<usize>, row: int, col: int) -> bool {
+    &&& forall|k: int| 0 <= k < row ==> #[trigger] pivot_ok(u, k, cols[k] as int)
+    &&& rest_zero(u, row, col)
+}
+pub open spec fn echelon<T: Entry, A: Array2d<T>>(u: A, cols: Seq<usize>, rank: int) -> bool {
+    &&& 0 <= rank <= u.srows() && rank <= u.scols() && cols.len() == u.srows()
+    &&& pivots_increasing(cols, rank)
+    &&& forall|k: int| 0 <= k < rank ==> #[trigger] cols[k] < u.scols()
+    &&& elim_state(u, cols, rank, u.scols())
+}
+pub open spec fn rows_swapped<T, A: Array2d<T>>(u0: A, u1: A, i: int, j: int) -> bool {
+    same_shape(u0, u1) && forall|k: int, l: int| 0 <= k < u0.srows() && 0 <= l < u0.scols() ==>
+        #[trigger] u1.at(k, l) == u0.at(if k == i { j } else if k == j { i } else { k }, l)
+}
+// the state inside the clearing loop: the pivot sits in (row, col) and the rows row+1 .. r-1 are already cleared in that column
+pub open spec fn clearing<T: Entry, A: Array2d<T>>(u: A, cols: Seq<usize>, row: int, col: int, r: int) -> bool {
+    &&& elim_state(u, cols, row, col)
+    &&& !u.at(row, col).zr()
+    &&& forall|k: int| row < k < r ==> (#[trigger] u.at(k, col)).zr()
+}
+
+proof fn lemma_swap_keeps<T: Entry, A: Array2d<T>>(u0: A, u1: A, cols: Seq<usize>, row: int, col: int, pr: int)
+    requires elim_state(u0, cols, row, col), 0 <= row <= pr < u0.srows(), 0 <= col < u0.scols(), rows_swapped(u0, u1, pr, row), !u0.at(pr, col).zr(),
+        forall|k: int| 0 <= k < row ==> #[trigger] cols[k] < col,
+    ensures clearing(u1, cols, row, col, row + 1)
+{
+    assert forall|k: int| 0 <= k < row implies #[trigger] pivot_ok(u1, k, cols[k] as int) by {
+        assert(pivot_ok(u0, k, cols[k] as int));
+        assert(u1.at(k, cols[k] as int) == u0.at(k, cols[k] as int));
+        assert forall|l: int| 0 <= l < cols[k] implies (#[trigger] u1.at(k, l)).zr() by { assert(u1.at(k, l) == u0.at(k, l)); }
+    }
+    assert forall|k: int, l: int| row <= k < u1.srows() && 0 <= l < col implies (#[trigger] u1.at(k, l)).zr() by {
+        let k0 = if k == pr { row } else if k == row { pr } else { k };
+        assert(u1.at(k, l) == u0.at(k0, l));
+        assert(u0.at(k0, l).zr());
+    }
+    assert(u1.at(row, col) == u0.at(pr, col));
+}
+
+proof fn lemma_no_swap<T: Entry, A: Array2d<T>>(u: A, cols: Seq<usize>, row: int, col: int)
+    requires elim_state(u, cols, row, col), !u.at(row, col).zr()
+    ensures clearing(u, cols, row, col, row + 1)
+{}
+
+proof fn lemma_clear_step<T: Entry, A: Array2d<T>>(u0: A, u1: A, cols: Seq<usize>, row: int, col: int, r: int)
+    requires clearing(u0, cols, row, col, r), 0 <= row < r < u0.srows(), 0 <= col < u0.scols(), cleared(u0, u1, col, r, row),
+        forall|k: int| 0 <= k < row ==> #[trigger] cols[k] < col,
+    ensures clearing(u1, cols, row, col, r + 1)
+{
+    assert forall|k: int| 0 <= k < row implies #[trigger] pivot_ok(u1, k, cols[k] as int) by {
+        assert(pivot_ok(u0, k, cols[k] as int));
+        assert(u1.at(k, cols[k] as int) == u0.at(k, cols[k] as int));
+        assert forall|l: int| 0 <= l < cols[k] implies (#[trigger] u1.at(k, l)).zr() by { assert(u1.at(k, l) == u0.at(k, l)); }
+    }
+    assert forall|k: int, l: int| row <= k < u1.srows() && 0 <= l < col implies (#[trigger] u1.at(k, l)).zr() by {
+        assert(u1.at(k, l) == u0.at(k, l));
+        assert(u0.at(k, l).zr());
+    }
+    assert forall|k: int| row < k < r + 1 implies (#[trigger] u1.at(k, col)).zr() by {
+        if k != r { assert(u1.at(k, col) == u0.at(k, col)); }
+    }
+}
+
+proof fn lemma_pivot_placed<T: Entry, A: Array2d<T>>(u: A, cols: Seq<usize>, row: int, col: usize)
+    requires clearing(u, cols, row, col as int, u.srows()), 0 <= row < u.srows(), 0 <= col < u.scols(), row < cols.len(),
+    ensures elim_state(u, cols.update(row, col), row + 1, col + 1)
+{
+    let c2 = cols.update(row, col);
+    assert forall|k: int| 0 <= k < row + 1 implies #[trigger] pivot_ok(u, k, c2[k] as int) by {
+        if k < row { assert(pivot_ok(u, k, cols[k] as int)); }
+        else {
+            assert forall|l: int| 0 <= l < col implies (#[trigger] u.at(row, l)).zr() by {}
+        }
+    }
+    assert forall|k: int, l: int| row + 1 <= k < u.srows() && 0 <= l < col + 1 implies (#[trigger] u.at(k, l)).zr() by {}
+}
+
+proof fn lemma_no_pivot<T: Entry, A: Array2d<T>>(u: A, cols: Seq<usize>, row: int, col: int)
+    requires elim_state(u, cols, row, col), forall|k: int| row <= k < u.srows() ==> (#[trigger] u.at(k, col)).zr(),
+    ensures elim_state(u, cols, row, col + 1)
+{
+    assert forall|k: int, l: int| row <= k < u.srows() && 0 <= l < col + 1 implies (#[trigger] u.at(k, l)).zr() by {}
+}
+
+// what the echelon form is good for: below and left of a pivot everything is zero, and a row without pivot is zero
+proof fn lemma_echelon_below<T: Entry, A: Array2d<T>>(u: A, cols: Seq<usize>, rank: int, k: int, i: int)
+    requires echelon(u, cols, rank), 0 <= k < rank, k < i < u.srows()
+    ensures u.at(i, cols[k] as int).zr()
+{
+    if i < rank { assert(pivot_ok(u, i, cols[i] as int)); }
+}
+
 impl<T: Entry> RowEchelonVecMatrix<T> {
     //@ begin src/geometry/vec_matrix.rs :: impl<T: Entry + Clone> RowEchelonVecMatrix<T> :: fn new
     //@ rw R16 /-> Self/-> (re: Self)/
     //@ rw R12 /let mut row = 0;/let mut row: usize = 0;/
     //@ rw R12 /let mut nr_swaps = 0;/let mut nr_swaps: usize = 0;/
-    //@ rw R17 /for col in 0\.\.m\.nr_columns\(\)$/for col in it: 0..m.nr_columns()/
+    //@ rw R20 /for col in 0\.\.([\w.()]+)\n([ \t]*)\{/let __n: usize = \1; let mut __c: usize = 0;\n\2while __c < __n\n\2{\n\2    let col = __c; __c += 1;/
     // loops see the facts about immutable locals established before them (robust against hoisting `m.nr_rows()` into a local)
     #[verifier::loop_isolation(false)]
+    #[verifier::allow_complex_invariants]
     pub fn new(m: &VecMatrix<T>) -> (re: Self)
         requires m.inv()
         // C18 "no shape makes these routines panic": every index / assertion in the body is discharged for ALL shapes, and
@@ -220,6 +470,9 @@ impl<T: Entry> RowEchelonVecMatrix<T> {
             re.multiplier.nr_rows == m.nr_rows, re.multiplier.nr_cols == m.nr_rows,  // shapes of multiplier / result
             re.result.nr_rows == m.nr_rows, re.result.nr_cols == m.nr_cols,
             re.nr_swaps <= re.rank,
+            // `result` is in ROW ECHELON FORM with `rank` pivots in the listed columns: each pivot is non-zero with zeros to its left,
+            // every row from `rank` on is zero -- for every `Entry` type whose pivot_row / clear_col meet the trait contract
+            re.result.inv(), echelon(re.result, re.columns@, re.rank as int),
     {
         let mut u = m.clone();
         let mut s = VecMatrix::identity(m.nr_rows());
@@ -227,28 +480,37 @@ impl<T: Entry> RowEchelonVecMatrix<T> {
         let mut nr_swaps: usize = 0;
         let mut cols = vec![m.nr_rows(); m.nr_rows()];
 
-        for col in it: 0..m.nr_columns()
+        let __n: usize = m.nr_columns(); let mut __c: usize = 0;
+        while __c < __n
             invariant
                 // the elimination sweeps ALL columns (it may stop early only through the explicit `rows exhausted` exit below):
                 // a pivot in a late column of a wide matrix must not be skipped
-                it.seq().len() == m.nr_cols,
+                __n == m.nr_cols, __c <= __n,
                 m.inv(), u.inv(), s.inv(),
                 u.nr_rows == m.nr_rows, u.nr_cols == m.nr_cols,
                 s.nr_rows == m.nr_rows, s.nr_cols == m.nr_rows,
                 cols@.len() == m.nr_rows,
-                row <= col, row <= m.nr_rows, nr_swaps <= row,
+                row <= __c, row <= m.nr_rows, nr_swaps <= row,
                 pivots_increasing(cols@, row as int),
-                forall|a: int| 0 <= a < row ==> #[trigger] cols@[a] < col,
+                forall|a: int| 0 <= a < row ==> #[trigger] cols@[a] < __c,
+                elim_state(u, cols@, row as int, __c as int),
+            ensures row == m.nr_rows || __c == __n,
+            decreases __n - __c,
         {
+            let col = __c; __c += 1;
             if row >= m.nr_rows() {
                 break;
             }
 
             if let Some(pr) = Entry::pivot_row(col, row, &u) {
+                let ghost u0 = u;
                 if pr != row {
                     u.swap_rows(pr, row);
                     s.swap_rows(pr, row);
                     nr_swaps += 1;
+                    proof { lemma_swap_keeps(u0, u, cols@, row as int, col as int, pr as int); }
+                } else {
+                    proof { lemma_no_swap(u, cols@, row as int, col as int); }
                 }
 
                 for r in (row + 1)..m.nr_rows()
@@ -257,12 +519,18 @@ impl<T: Entry> RowEchelonVecMatrix<T> {
                         u.nr_rows == m.nr_rows, u.nr_cols == m.nr_cols,
                         s.nr_rows == m.nr_rows, s.nr_cols == m.nr_rows,
                         row < m.nr_rows, col < m.nr_cols,
+                        clearing(u, cols@, row as int, col as int, r as int),
                 {
+                    let ghost u1 = u;
                     Entry::clear_col(col, r, row, &mut u, Some(&mut s));
+                    proof { lemma_clear_step(u1, u, cols@, row as int, col as int, r as int); }
                 }
 
+                proof { lemma_pivot_placed(u, cols@, row as int, col); }
                 cols[row] = col;
                 row += 1;
+            } else {
+                proof { lemma_no_pivot(u, cols@, row as int, col as int); }
             }
         }
 
@@ -289,15 +557,30 @@ pub struct Matrix<T, const N: usize, const M: usize> {
 //@ end
 
 impl<T, const N: usize, const M: usize> Matrix<T, N, M> {
-    // assumed SHAPE contracts (bodies need `T: Scalar + Clone`, array-of-array manipulation): the assertions of swap_rows are its precondition
+    // assumed contracts (bodies need `T: Scalar + Clone`): `clone` is the derived one (same entries), `identity` is used for its type only
     #[verifier::external_body]
-    pub fn clone(&self) -> (r: Self) { unimplemented!() }
-    #[verifier::external_body]
-    pub fn swap_rows(&mut self, i: usize, j: usize) requires i < N, j < N, i != j { unimplemented!() }
+    pub fn clone(&self) -> (r: Self)
+        ensures forall|i: int, j: int| 0 <= i < N && 0 <= j < M ==> #[trigger] r.at(i, j) == self.at(i, j) { unimplemented!() }
 }
 impl<T, const N: usize> Matrix<T, N, N> {
     #[verifier::external_body]
     pub fn identity() -> (r: Self) { unimplemented!() }
+}
+
+impl<T, const N: usize, const M: usize> Matrix<T, N, M> {
+    //@ begin src/geometry/matrix.rs :: impl<T: Scalar + Clone, const N: usize, const M: usize> Matrix<T, N, M> :: fn swap_rows
+    pub fn swap_rows(&mut self, i: usize, j: usize)
+        requires i < N, j < N, i != j                                                      // the three assertions of the body
+        ensures forall|k: int, l: int| 0 <= k < N && 0 <= l < M ==>
+                #[trigger] final(self).at(k, l) == old(self).at(if k == i { j as int } else if k == j { i as int } else { k }, l),
+    {
+        assert!(i < N);
+        assert!(j < N);
+        assert_ne!(i, j);
+
+        self.data.swap(i, j)
+    }
+    //@ end
 }
 
 impl<T, const N: usize, const M: usize> IndexSpecImpl<(usize, usize)> for Matrix<T, N, M> {
@@ -306,14 +589,45 @@ impl<T, const N: usize, const M: usize> IndexSpecImpl<(usize, usize)> for Matrix
 impl<T, const N: usize, const M: usize> Index<(usize, usize)> for Matrix<T, N, M>
 {
     type Output = T;
-    #[verifier::external_body]
-    fn index(&self, index: (usize, usize)) -> (r: &Self::Output) { unimplemented!() }
+
+    //@ begin src/geometry/matrix.rs :: impl<T, const N: usize, const M: usize> Index<(usize, usize)> for Matrix<T, N, M> :: fn index
+    //@ rw R16 /-> &Self::Output/-> (r: &Self::Output)/
+    fn index(&self, index: (usize, usize)) -> (r: &Self::Output)
+        ensures *r == self.data@[index.0 as int]@[index.1 as int]
+    {
+        let (i, j) = index;
+        assert!(i < N);
+        assert!(j < M);
+
+        &self.data[i][j]
+    }
+    //@ end
+}
+
+impl<T, const N: usize, const M: usize> IndexMut<(usize, usize)> for Matrix<T, N, M>
+{
+    //@ begin src/geometry/matrix.rs :: impl<T, const N: usize, const M: usize> IndexMut<(usize, usize)> for Matrix<T, N, M> :: fn index_mut
+    //@ rw R16 /-> &mut T$/-> (r: &mut T)/
+    fn index_mut(&mut self, index: (usize, usize)) -> (r: &mut T)
+        // the returned reference IS the slot of entry (i, j)
+        ensures *r == old(self).data@[index.0 as int]@[index.1 as int],
+            final(self).data@[index.0 as int]@ == old(self).data@[index.0 as int]@.update(index.1 as int, *final(r)),
+            forall|k: int| 0 <= k < N && k != index.0 ==> #[trigger] final(self).data@[k] == old(self).data@[k],
+    {
+        let (i, j) = index;
+        assert!(i < N);
+        assert!(j < M);
+
+        &mut self.data[i][j]
+    }
+    //@ end
 }
 
 impl<T, const N: usize, const M: usize> Array2d<T> for Matrix<T, N, M> {
     open spec fn wf(&self) -> bool { true }
     open spec fn srows(&self) -> int { N as int }
     open spec fn scols(&self) -> int { M as int }
+    open spec fn at(&self, i: int, j: int) -> T { self.data@[i]@[j] }
 
     //@ begin src/geometry/matrix.rs :: impl<T, const N: usize, const M: usize> Array2d<T> for Matrix<T, N, M> :: fn nr_rows
     fn nr_rows(&self) -> usize
@@ -330,6 +644,8 @@ impl<T, const N: usize, const M: usize> Array2d<T> for Matrix<T, N, M> {
     //@ end
 
     proof fn index_law(&self, i: usize, j: usize) {}
+    proof fn read_law(&self) {}
+    proof fn write_law() {}
 }
 
 //@ begin src/geometry/matrix.rs :: - :: struct RowEchelonMatrix
@@ -348,13 +664,17 @@ impl<T: Entry, const N: usize, const M: usize> RowEchelonMatrix<T, N, M> {
     //@ rw R16 /-> Self/-> (re: Self)/
     //@ rw R12 /let mut row = 0;/let mut row: usize = 0;/
     //@ rw R12 /let mut nr_swaps = 0;/let mut nr_swaps: usize = 0;/
-    //@ rw R17 /for col in 0\.\.M$/for col in it: 0..M/
+    //@ rw R20 /for col in 0\.\.([\w.()]+)\n([ \t]*)\{/let __n: usize = \1; let mut __c: usize = 0;\n\2while __c < __n\n\2{\n\2    let col = __c; __c += 1;/
+    #[verifier::loop_isolation(false)]
+    #[verifier::allow_complex_invariants]
     pub fn new(m: &Matrix<T, N, M>) -> (re: Self)
         // the same contract as the Vec-backed version: no index or assertion in the body can fail, and
         ensures re.rank <= N, re.rank <= M,
             pivots_increasing(re.columns@, re.rank as int),
             forall|a: int| 0 <= a < re.rank ==> #[trigger] re.columns@[a] < M,
             re.nr_swaps <= re.rank,
+            // `result` is in ROW ECHELON FORM with `rank` pivots in the listed columns
+            echelon(re.result, re.columns@, re.rank as int),
     {
         let mut u = m.clone();
         let mut s = Matrix::identity();
@@ -362,32 +682,47 @@ impl<T: Entry, const N: usize, const M: usize> RowEchelonMatrix<T, N, M> {
         let mut nr_swaps: usize = 0;
         let mut cols = [N; N];
 
-        for col in it: 0..M
+        let __n: usize = M; let mut __c: usize = 0;
+        while __c < __n
             invariant
-                it.seq().len() == M,
-                row <= col, row <= N, nr_swaps <= row,
+                __n == M, __c <= __n,
+                row <= __c, row <= N, nr_swaps <= row,
                 pivots_increasing(cols@, row as int),
-                forall|a: int| 0 <= a < row ==> #[trigger] cols@[a] < col,
+                forall|a: int| 0 <= a < row ==> #[trigger] cols@[a] < __c,
+                elim_state(u, cols@, row as int, __c as int),
+            ensures row == N || __c == __n,
+            decreases __n - __c,
         {
+            let col = __c; __c += 1;
             if row >= N {
                 break;
             }
 
             if let Some(pr) = Entry::pivot_row(col, row, &u) {
+                let ghost u0 = u;
                 if pr != row {
                     u.swap_rows(pr, row);
                     s.swap_rows(pr, row);
                     nr_swaps += 1;
+                    proof { lemma_swap_keeps(u0, u, cols@, row as int, col as int, pr as int); }
+                } else {
+                    proof { lemma_no_swap(u, cols@, row as int, col as int); }
                 }
 
                 for r in (row + 1)..N
                     invariant row < N, col < M,
+                        clearing(u, cols@, row as int, col as int, r as int),
                 {
+                    let ghost u1 = u;
                     Entry::clear_col(col, r, row, &mut u, Some(&mut s));
+                    proof { lemma_clear_step(u1, u, cols@, row as int, col as int, r as int); }
                 }
 
+                proof { lemma_pivot_placed(u, cols@, row as int, col); }
                 cols[row] = col;
                 row += 1;
+            } else {
+                proof { lemma_no_pivot(u, cols@, row as int, col as int); }
             }
         }
 
@@ -414,6 +749,27 @@ fn canary_new_contract<T: Entry>(m: &VecMatrix<T>)
     ensures false
 {
     let r = RowEchelonVecMatrix::new(m);
+}
+
+// the strengthened trait contracts are satisfiable: calling clear_col with its precondition met must not make `false` provable
+fn canary_clear_col_contract(m: &mut VecMatrix<i64>, s: &mut VecMatrix<i64>)
+    requires old(m).inv(), old(m).nr_rows == 2, old(m).nr_cols == 2, old(s).inv(), old(s).nr_rows == 2, old(s).nr_cols == 2, old(m).at(0, 0) != 0
+    ensures false
+{
+    <i64 as Entry>::clear_col(0, 1, 0, m, Some(s));
+}
+
+fn canary_swap_rows_contract(m: &mut VecMatrix<i64>)
+    requires old(m).inv(), old(m).nr_rows == 2, old(m).nr_cols == 2
+    ensures false
+{
+    m.swap_rows(0, 1);
+}
+
+proof fn canary_echelon_is_satisfiable(u: VecMatrix<i64>, cols: Seq<usize>)
+    requires echelon(u, cols, 1), u.nr_rows == 2, u.nr_cols == 2
+    ensures false
+{
 }
 
 fn canary_pivot_row_contract(m: &VecMatrix<i64>)
